@@ -74,7 +74,9 @@ size_t HyperedgeRerouter::count(void) const
 HyperedgeNewAndDeletedObjectLists HyperedgeRerouter::newAndDeletedObjectLists(
         size_t index) const
 {
-    COLA_ASSERT(index <= count());
+    // The registered hyperedges (and thus count()) are cleared at the end of
+    // each transaction, while the results for them remain available.
+    COLA_ASSERT(index < m_new_junctions_vector.size());
 
     HyperedgeNewAndDeletedObjectLists result;
 
